@@ -132,7 +132,7 @@ SELECT = ['any', 'log_softmax', 'norm']
 ACCESS = ['getitem', 'iter', 'tolist', 'item']
 SHAPE = ['transpose', 'permute', 'T', 'flatten', 'unsqueeze', 'expand', 'repeat', 'stack']
 RESHAPE = ['reshape_merge', 'reshape_ones', 'reshape_any', 'view_merge']
-COPIES = ['clone', 'detach', 'freshen', 'copy_', 'default_to', 'dim_to_dense', 'to_dense', 'project', 'imul_t', 'itruediv_t']
+COPIES = ['cast_chain', 'project_own', 'clone', 'detach', 'freshen', 'copy_', 'default_to', 'dim_to_dense', 'to_dense', 'project', 'imul_t', 'itruediv_t']
 ALLOPS = BINARY * 3 + BINARY_BOOL + SCALAR + UNARY + SELECT * 2 + ACCESS + SHAPE * 2 + RESHAPE * 2 + COPIES * 2 + ['leaf'] * 4 + ['special_leaf'] * 2
 
 
@@ -923,6 +923,57 @@ class Machine:
                 V('to_dense', ['aliases-source'], 'writing into the result of to_dense changed the tensor')
         return 'to_dense'
 
+    def op_cast_chain(self, a):
+        """short compositions through dtype casts: the default has to be cast like the elements"""
+        x = self.pick(a[0], lambda v: self.floats(v) and bool(torch.isfinite(v.model).all()) and math.isfinite(v.pt.default)
+                      and abs(v.pt.default) < 1e6 and (v.model.numel() == 0 or float(v.model.abs().max()) < 1e6))
+        if x is None:
+            return None
+        k = a[1] % 3
+        if k == 0:
+            r = x.pt.to(torch.bool).to(torch.float64)
+            m = x.model.to(torch.bool).to(torch.float64)
+        elif k == 1:
+            r = x.pt.to(torch.long).mul(2)
+            m = x.model.to(torch.long).mul(2)
+        else:
+            r = x.pt.to(torch.long).to(torch.float64).add(0.5)
+            m = x.model.to(torch.long).to(torch.float64).add(0.5)
+        self.result('cast_chain', r, m, x.sig)
+        return 'cast_chain'
+
+    def op_project_own(self, a):
+        """project onto a pattern written over the tensor's OWN physical axes, arranged differently (two equal-sized
+        axes swapped everywhere): the result is indexed by the given paxes"""
+        IX = self.IX
+        x = self.pick(a[0], lambda v: len(v.pt.paxes) >= 2)
+        if x is None:
+            return None
+        ps = list(x.pt.paxes)
+        pairs = [(i, j) for i in range(len(ps)) for j in range(i + 1, len(ps)) if ps[i].numel() == ps[j].numel()]
+        if not pairs:
+            return None
+        i, j = pairs[a[1] % len(pairs)]
+        sw = {id(ps[i]): ps[j], id(ps[j]): ps[i]}
+
+        def rebuild(e):
+            if isinstance(e, IX.PhysicalAxis):
+                return sw.get(id(e), e)
+            if isinstance(e, IX.ProductAxis):
+                return IX.productAxis(rebuild(f) for f in e.factors)
+            return IX.SumAxis(e.before, rebuild(e.term), e.after)
+        vaxes = tuple(rebuild(e) for e in x.pt.vaxes)
+        got = x.pt.project(tuple(ps), vaxes)
+        psizes = [k.numel() for k in ps]
+        want = torch.empty(psizes, dtype=x.model.dtype)
+        for idx in itertools.product(*[range(n) for n in psizes]):
+            pidx = {k: v for k, v in zip(ps, idx)}
+            v = tuple(axis_eval(IX, e, pidx) for e in vaxes)
+            want[idx] = x.model[v]
+        if not same(got, want):
+            V('denotation', ['project', 'own-axes'], f'project over the tensor\'s own axes: {got.tolist()} vs {want.tolist()}; vaxes={vaxes}')
+        return 'project_own'
+
     def op_project(self, a):
         """project onto a random sub-pattern of the same shape: gather through an independently evaluated axis map"""
         x = self.pick(a[0])
@@ -930,7 +981,7 @@ class Machine:
             return None
         g = Stream(a[1] * 65536 + a[2], 'proj')
         spec = gen_leaf(g, x.sig, 'bool' if x.model.dtype == torch.bool else 'float64')
-        tmpl = TR.mk_patterned(spec, x.model.dtype)
+        tmpl = TR.mk_patterned(spec, torch.bool if x.model.dtype == torch.bool else torch.float64)   # only its axes are used
         got = x.pt.project(tmpl.paxes, tmpl.vaxes)
         # reference: element at physical index p of the template is the model element at the virtual index p maps to
         psizes = [k.numel() for k in tmpl.paxes]
